@@ -175,6 +175,12 @@ func deciderOf(v ssa.Value) string {
 		}
 		return deciderOf(x.Tuple)
 	case *ssa.BinOp:
+		// subtle.ConstantTimeCompare(a, b) == 1 is the constant-time spelling of bytes.Equal(a, b)
+		if call, ok := x.X.(*ssa.Call); ok && isCallToPkgFunc(call, "crypto/subtle", "ConstantTimeCompare") {
+			if _, isC := x.Y.(*ssa.Const); isC && (x.Op == token.EQL || x.Op == token.NEQ) {
+				return "bytes.Equal"
+			}
+		}
 		l, rr := deciderOf(x.X), deciderOf(x.Y)
 		op := x.Op.String()
 		switch x.Op {
